@@ -43,6 +43,8 @@ def cases(tier, seed):
     prof = ("full", "free", "joints")[i % 3]
     nw = sizes[i % len(sizes)] if i % 7 else (257 if tier == "thorough" and i % 49 == 0 else 9)
     out.append({"id": f"gen{seed}_{i}", "scene": {"kind": "gen", "seed": seed * 100000 + i, "profile": prof}, "seed": seed * 100000 + i, "T": T, "nworld": nw, "weight": 1})
+  for i in range(1 if tier == "quick" else 10):
+    out.append({"id": f"big{seed}_{i}", "scene": {"kind": "gen", "seed": seed * 100000 + 8000 + i, "profile": "bigtree"}, "seed": seed * 100000 + 8000 + i, "T": 3, "nworld": 3, "weight": 4})
   for i in range(6 if tier == "quick" else 60):
     out.append(
       {
